@@ -36,7 +36,8 @@ LEVEL_TEXT = ('bit-exact executable Lean model of silk_resampler_init / silk_res
               'configurations, -1 and an all-zero state otherwise), every call with inLen >= 1 ms on an invariant state is total (no '
               'out-of-bounds index, no assertion), preserves invariant and configuration, writes a sample count given in closed form '
               '(ms * Fs_out_kHz for whole milliseconds), all samples int16, all state words representable, by induction over every '
-              'call history; the IIR_FIR interpolation sum is exact (no 32-bit wrap); chunk invariance for the copy / up2_HQ kernels; '
+              'call history; the IIR_FIR interpolation sum is exact (no 32-bit wrap); the delay line (kernels see the input delayed by '
+              'inputDelay samples, streams of consecutive calls concatenate); chunk invariance for the copy / up2_HQ kernels; '
               'tied by exact comparison of outputs and complete post-state over call histories under ASan/UBSan')
 LEVEL_NOTE = ('trusted: Lean kernel; the harness and line protocol; the reading of the C macros (OPUS_FAST_INT64 variants) into '
               'wrap32-reducing helpers; the union sFIR modelled through the view the selected kernel uses')
@@ -48,7 +49,8 @@ REQUIRED_THEOREMS = ['OpusProps.C03SilkResamp.init_accepts_iff', 'OpusProps.C03S
                      'OpusProps.C03SilkResamp.out_len_formula', 'OpusProps.C03SilkResamp.out_len_whole_ms',
                      'OpusProps.C03SilkResamp.iir_fir_interpolation_exact',
                      'OpusProps.C03SilkResamp.chunk_invariance_fold_kernels_partial',
-                     'OpusProps.C03SilkResamp.state_words_representable', 'OpusProps.C03SilkResamp.call_keeps_words_representable']
+                     'OpusProps.C03SilkResamp.state_words_representable', 'OpusProps.C03SilkResamp.call_keeps_words_representable',
+                     'OpusProps.C03SilkResamp.delay_line']
 
 
 def _wait_driver(secs=120):
@@ -68,7 +70,7 @@ def ties(ctx):
     hs = _h(ctx, 'san')
     hp = _h(ctx, 'plain')
     _wait_driver()
-    n = 700 if ctx.quick else 12000
+    n = 700 if ctx.quick else 25000
     specs = [('silkresamp-init', [hp, 'init']),
              ('silkresamp-init-san', [hs, 'init']),
              ('silkresamp-grid-san', [hs, 'grid', str(ctx.seed)]),
@@ -121,7 +123,7 @@ def classify(ctx, tie, mm):
 
 def search(ctx):
     """Predicates on the implementation alone (no model)."""
-    n = 1500 if ctx.quick else 40000
+    n = 1500 if ctx.quick else 80000
     wit, cases, samples = [], 0, []
     for variant in ('san', 'plain'):
         h = _h(ctx, variant)
